@@ -662,4 +662,75 @@ theorem truncated_output (blocks : List Val) (hb : ConformsList block blocks) (f
 /-! Non-vacuity / concrete instances: exactly one full window, then the end. -/
 example : Inv (DecSt.ofBytes (List.replicate 65535 1)) := inv_ofBytes _
 
+
+/-- `runWS` is `runW` with the state kept across a throw -/
+theorem runWS_runW (p : Prog α) (s : DecSt) :
+    runW p s = match runWS p s with
+      | (.ok a, s') => .ok (a, s')
+      | (.error e, _) => .error e := by
+  induction p generalizing s with
+  | pure a => rfl
+  | throw e => rfl
+  | next k ih =>
+    simp only [runW, runWS]
+    cases h : readToBuffer s with
+    | error e => rfl
+    | ok s' =>
+      simp only
+      cases hw : s'.win with
+      | nil => rfl
+      | cons b w => simp only; exact ih b _
+  | peek k ih =>
+    simp only [runW, runWS]
+    cases h : readToBuffer s with
+    | error e => rfl
+    | ok s' =>
+      simp only
+      cases hw : s'.win with
+      | nil => rfl
+      | cons b w => simp only; exact ih b _
+
+/-- **End of input is sticky.**  When `read_to_buffer()` has thrown the end-of-input error, the state it leaves behind makes it
+    throw again: a decoder that has reported the end never fabricates a value on a later call. -/
+theorem end_is_sticky (s : DecSt) (h : readToBuffer s = .error .end_) : readToBuffer (afterRefill s) = .error .end_ := by
+  unfold readToBuffer at h
+  unfold afterRefill
+  by_cases hw : s.win = []
+  · simp only [hw, if_true] at h ⊢
+    by_cases he : s.inp.eof = true
+    · simp only [he, if_true]
+      unfold readToBuffer; simp only [hw, if_true, he]
+    · simp only [he, Bool.false_eq_true, if_false] at h ⊢
+      -- the refill delivered nothing
+      have hb : (s.inp.read bufferSize).1 = [] := by
+        by_cases hx : (s.inp.read bufferSize).1 = []
+        · exact hx
+        · simp only [hx, if_false] at h; cases h
+      unfold readToBuffer
+      simp only [hb, if_true]
+      -- after it the stream is at eof, or still delivers nothing
+      unfold IStream.read at hb ⊢
+      by_cases hg : s.inp.good = true
+      · simp only [hg, Bool.not_true, Bool.false_eq_true, if_false] at hb ⊢
+        by_cases hl : s.inp.data.length < bufferSize
+        · simp only [hl, if_true]
+        · simp only [hl, if_false] at hb
+          have : 0 < bufferSize := bufferSize_pos
+          have hlen : (s.inp.data.take bufferSize).length = 0 := by rw [hb]; rfl
+          rw [List.length_take] at hlen
+          omega
+      · have hg' : s.inp.good = false := by simpa using hg
+        simp only [hg', Bool.not_false, if_true]
+        by_cases he2 : s.inp.eof = true
+        · simp [he2]
+        · simp only [he2, Bool.false_eq_true, if_false]
+  · simp only [hw, if_false] at h; cases h
+
+/-- consequently every further read or peek on that decoder object reports the end again -/
+theorem after_end_every_call_ends (s : DecSt) (h : readToBuffer s = .error .end_) (k : Nat → Prog α) :
+    (runWS (.next k) (afterRefill s)).1 = .error .end_ ∧ (runWS (.peek k) (afterRefill s)).1 = .error .end_ := by
+  have := end_is_sticky s h
+  simp only [runWS, this, and_self]
+
+
 end CdnsVerif.Props.C05
